@@ -44,9 +44,11 @@ def main():
         res['apply_output'] = out[-800:]
     flags = ''
     src = open(demo_c).read()
-    m = re.search(r'-D(USE_[A-Z_]+=\d)', src + res['needs'])
-    if m and '#error' in src:
-        flags = '-D' + m.group(1)
+    fl = sorted(set(re.findall(r'-D(USE_[A-Z_]+=\d)', src)))
+    if not fl and '#error' in src:
+        fl = sorted(set(re.findall(r'-D(USE_[A-Z_]+=\d)', res['needs'])))[:1]
+    flags = ' '.join('-D' + x for x in fl)
+    res['demo_flags'] = flags
     if '--wrap' in src + res['needs']:
         flags += ' -Wl,--wrap=strndup -Wl,--wrap=free'
     ok, t = tests_pass(mut)
